@@ -580,6 +580,13 @@ func randStructType(r *rand.Rand, depth int, wf bool) reflect.Type {
 var tlvsHung bool
 
 func tlvsUnmarshal(tt tlvsType, data []byte) (outcome string, panicMsg string) {
+	orig := append([]byte{}, data...)
+	defer func() {
+		if outcome != "hang" && !bytes.Equal(orig, data) {
+			outcome, panicMsg = "input-modified", fmt.Sprintf("input was %s, is %s after the call", trunc(hx(orig), 200), trunc(hx(data), 200))
+			copy(data, orig)
+		}
+	}()
 	p := reflect.New(tt.t)
 	var err error
 	var msg string
@@ -600,7 +607,19 @@ func tlvsUnmarshal(tt tlvsType, data []byte) (outcome string, panicMsg string) {
 	}
 	switch err {
 	case nil:
-		return "ok " + showFields(tt.ty.Fields, p.Elem()), ""
+		shown := showFields(tt.ty.Fields, p.Elem())
+		// the decoded value must not share memory with the input: the caller reuses its receive buffer
+		if bytes.Equal(orig, data) {
+			for i := range data {
+				data[i] ^= 0xFF
+			}
+			after := showFields(tt.ty.Fields, p.Elem())
+			copy(data, orig)
+			if after != shown {
+				return "aliases-input", "decoded value changes when the input buffer is overwritten: " + trunc(shown, 150) + " → " + trunc(after, 150)
+			}
+		}
+		return "ok " + shown, ""
 	case io.EOF:
 		return "err eof", ""
 	case io.ErrUnexpectedEOF:
@@ -735,6 +754,7 @@ func checkC17(c *Ctx) {
 	}
 	model := c.Model(lines)
 	excludedSeen := map[string]map[string]int{}
+	var lastEnc, lastEncCopy []byte
 	excludedSample := map[string]string{}
 	// valid encodings (by the harness's own encoder, so that the malformed stream does not depend on the code
 	// under test nor on replay filtering), reused by the malformed stream
@@ -759,6 +779,11 @@ func checkC17(c *Ctx) {
 		var enc []byte
 		var merr error
 		msg, pan := safely(func() { enc, merr = tlv8.Marshal(cs.val.Interface()) })
+		// what an earlier Marshal call returned belongs to its caller: a later call must not change it
+		if lastEnc != nil && !bytes.Equal(lastEnc, lastEncCopy) {
+			c.Violate("bytes returned by an earlier tlv8.Marshal call changed when Marshal was called again", cs.id, lines[i], trunc(hx(lastEncCopy), 200), trunc(hx(lastEnc), 200))
+		}
+		lastEnc, lastEncCopy = enc, append([]byte{}, enc...)
 		var impl string
 		nontriv := false
 		switch {
@@ -781,6 +806,8 @@ func checkC17(c *Ctx) {
 				return
 			} else if out == "panic" {
 				c.Violate("tlv8.Unmarshal panics on bytes produced by tlv8.Marshal", cs.id, lines[i], "value", pmsg)
+			} else if out == "input-modified" || out == "aliases-input" {
+				c.Violate("tlv8.Unmarshal modifies its input or returns a value that shares memory with it", cs.id, lines[i], "input untouched, value independent", out+": "+pmsg)
 			} else if wf == 1 || (cs.tt.src == "rtp" && wfValGo(cs.tt.ty, cs.val) == "") {
 				// direct oracle 2: round trip (nil and empty slices identified); the library's own RTP types
 				// must round-trip whatever their shape (rtp_types_wf proves they are inside the domain)
@@ -859,6 +886,9 @@ func checkC17(c *Ctx) {
 	model = c.Model(lines)
 	for i, d := range dlive {
 		out, pmsg := tlvsUnmarshal(d.tt, d.data)
+		if out == "input-modified" || out == "aliases-input" {
+			c.Violate("tlv8.Unmarshal modifies its input or returns a value that shares memory with it", d.id, lines[i], "input untouched, value independent", out+": "+pmsg)
+		}
 		if out == "hang" {
 			c.Violate("tlv8.Unmarshal does not terminate on malformed input", d.id, lines[i], "value or error", pmsg)
 			c.Same("dec", d.id, lines[i], model[i], out)
